@@ -45,8 +45,36 @@ def _split_layout(the_struct: str):
     return [(n, t) for n, t in a]
 
 
-def _freevars(fn):
-    return dict(zip(fn.__code__.co_freevars, [c.cell_contents for c in (fn.__closure__ or ())]))
+def _closure_objects(fn, depth=4, _seen=None):
+    """every object reachable from the closure cells of fn (through nested functions, dict values and list/tuple
+    items), whatever the local names are: the live cross-checks below look things up by TYPE or VALUE, never by the
+    name of a local variable of the implementation"""
+    seen = _seen if _seen is not None else set()
+    out = []
+
+    def visit(o, d):
+        if id(o) in seen or d < 0:
+            return
+        seen.add(id(o))
+        out.append(o)
+        if callable(o) and getattr(o, "__closure__", None):
+            for c in o.__closure__:
+                try:
+                    visit(c.cell_contents, d - 1)
+                except ValueError:      # empty cell
+                    pass
+        elif isinstance(o, dict):
+            for v in o.values():
+                visit(v, d - 1)
+        elif isinstance(o, (list, tuple)):
+            for v in o:
+                visit(v, d - 1)
+    for c in (getattr(fn, "__closure__", None) or ()):
+        try:
+            visit(c.cell_contents, depth)
+        except ValueError:
+            pass
+    return out
 
 
 def coq_char(c: str) -> str:
@@ -78,24 +106,38 @@ def gen_messages() -> str:
         raise GenError("STANDARD_P2P_MESSAGES: imported value differs from the source literal")
     if M.standard_messages() != live:
         raise GenError("standard_messages() differs from STANDARD_P2P_MESSAGES")
-    # what network.message really uses
-    fv_pack = _freevars(network.message.pack)
-    fv_parse = _freevars(network.message.parse)
-    if fv_pack.get("message_dict") != live:
-        raise GenError("network.message.pack is not built from STANDARD_P2P_MESSAGES")
-    streamer = fv_pack.get("streamer")
-    parsers = fv_parse.get("message_parsers")
-    posts = fv_parse.get("message_post_unpacks")
-    if streamer is None or parsers is None or posts is None:
-        raise GenError("unexpected closure shape of network.message.pack/parse")
-    if sorted(parsers) != sorted(live):
-        raise GenError("message_parsers keys differ from the layout table")
-    for name, p in parsers.items():
-        pfv = _freevars(p)
+    # what network.message really uses (objects located by type / value in the closures of pack and parse)
+    from pycoin.serialize.streamer import Streamer as StreamerBase
+    objs = _closure_objects(network.message.pack) + _closure_objects(network.message.parse)
+    if not any(isinstance(o, dict) and o == live for o in objs):
+        raise GenError("network.message.pack/parse do not hold the STANDARD_P2P_MESSAGES table")
+    streamers = []
+    for o in objs:
+        if isinstance(o, StreamerBase) and not any(o is x for x in streamers):
+            streamers.append(o)
+    if len(streamers) != 1:
+        raise GenError("expected exactly one Streamer behind network.message, found %d" % len(streamers))
+    streamer = streamers[0]
+    # one parser per message, each built from the names / concatenated types of its layout string
+    parser_tables = [o for o in objs if isinstance(o, dict) and sorted(o) == sorted(live) and o != live
+                     and all(callable(v) for v in o.values())]
+    if len(parser_tables) != 1:
+        raise GenError("message parser table not found behind network.message.parse")
+    for name, pf in parser_tables[0].items():
         pairs = _split_layout(live[name])
-        if pfv.get("streamer") is not streamer or pfv.get("names") != [n for n, _ in pairs] \
-                or pfv.get("types") != "".join(t for _, t in pairs):
+        inner = _closure_objects(pf)
+        if not any(o is streamer for o in inner) or not any(isinstance(o, list) and o == [n for n, _ in pairs] for o in inner) \
+                or not any(isinstance(o, str) and o == "".join(t for _, t in pairs) for o in inner):
             raise GenError("parser of %s is not built from its layout string" % name)
+    # post-processing table: the public constructor, cross-checked with what parse holds
+    posts = M.standard_message_post_unpacks(streamer)
+    if not isinstance(posts, dict) or not all(isinstance(k, str) and callable(v) for k, v in posts.items()):
+        raise GenError("standard_message_post_unpacks shape")
+    held = [o for o in objs if isinstance(o, dict) and o is not parser_tables[0] and o != live and sorted(o) == sorted(posts)
+            and all(callable(v) for v in o.values())]
+    if posts and not held:
+        raise GenError("post_unpack table of network.message.parse differs from standard_message_post_unpacks")
+    posts = held[0] if held else posts
     if sorted(streamer.parse_lookup) != sorted(streamer.stream_lookup):
         raise GenError("parse_lookup and stream_lookup register different characters")
     if streamer.array_count_parse_f is not M.parse_satoshi_int:
@@ -129,11 +171,9 @@ def gen_messages() -> str:
         raise GenError("post_unpack table shape")
     alert_pairs = _split_layout(alert_src)
     if "alert" in posts:
-        afv = _freevars(posts["alert"])
-        sub = afv.get("alert_submessage_parser")
-        sfv = _freevars(sub) if sub is not None else {}
-        if sfv.get("streamer") is not streamer or sfv.get("names") != [n for n, _ in alert_pairs] \
-                or sfv.get("types") != "".join(t for _, t in alert_pairs):
+        inner = _closure_objects(posts["alert"])
+        if not any(o is streamer for o in inner) or not any(isinstance(o, list) and o == [n for n, _ in alert_pairs] for o in inner) \
+                or not any(isinstance(o, str) and o == "".join(t for _, t in alert_pairs) for o in inner):
             raise GenError("alert sub-message parser is not built from the_struct")
     if "merkleblock" in posts and posts["merkleblock"] is not M.post_unpack_merkleblock:
         raise GenError("merkleblock post_unpack is not post_unpack_merkleblock")
